@@ -7,52 +7,11 @@
    batch first. That logic is C07's model coq/Determ/Model.v (apply_batched, transcribed from
    node/state_machine.go and node/node.go). Here it is INSTANTIATED on Lin/Spec.v and added to the protocol
    as the transition t_apply_group: replica r applies the next n entries through Determ.Model.apply_batched
-   under an ARBITRARY partition into applyEntries events; the client replies are the ones that computation
+   under an ARBITRARY partition into applyEntries events (all access to coq/Determ goes through Lin/DetermAdapter.v); the client replies are the ones that computation
    triggers. Lin/BatchingProofs.v shows, by citing C07's theorem batch_equiv_replies, that such a step is n
    steps of t_apply — so every theorem about Protocol holds for the batched system, and a batch operator that
    admitted two conditional SETs on one key (seeded change C04-a2) would break that proof. *)
-From ZV Require Export Lin.Protocol Lin.Route.
-From ZV Require Determ.Consts Determ.Model.
-From Coq Require Import String Ascii.
-
-Definition bytes_of_string (s : string) : list N := map N_of_ascii (list_ascii_of_string s).
-
-(* the primary key an operation addresses: the four components of Spec.state are four redis keys *)
-Definition op_pk (o : op) : list N :=
-  match o with
-  | OIncr | OGetSet _ | OSetNX _ | OGet | OSet _ | ODel | OSetIfAbsent _ | OSetIfPresent _ => [0%N]
-  | OHIncrBy _ | OHGet => [1%N]
-  | OLPush _ | OLPop | OLLen | OLDump => [2%N]
-  | OSAdd _ | OSRem _ | OSCard | OSDump => [3%N]
-  end.
-
-(* the raft entry as the state machine sees it: command name, primary key, argument count *)
-Definition req_of (e : entry) : Determ.Model.req :=
-  Determ.Model.mkReq (N.of_nat (e_id e)) Determ.Model.KRedis
-    (bytes_of_string (op_cmd (e_op e))) (op_pk (e_op e)) 2 0 true.
-
-Definition tbl_of (ents : list entry) : list (N * op) := map (fun e => (N.of_nat (e_id e), e_op e)) ents.
-
-Fixpoint lookup (id : N) (t : list (N * op)) : option op :=
-  match t with [] => None | (i, o) :: t' => if N.eqb i id then Some o else lookup id t' end.
-
-Fixpoint nlist_eqb (a b : list N) : bool :=
-  match a, b with [], [] => true | x :: a', y :: b' => N.eqb x y && nlist_eqb a' b' | _, _ => false end.
-
-(* the handler of a request: Spec.step on the COMMITTED state; its write = the new object state.
-   A request whose name / key do not belong to its operation has no handler. *)
-Definition spec_handler (t : list (N * op)) (q : Determ.Model.req) (s : state) : Determ.Model.outcome state res :=
-  match lookup (Determ.Model.rid q) t with
-  | Some o =>
-      if nlist_eqb (Determ.Model.rname q) (bytes_of_string (op_cmd o)) && nlist_eqb (Determ.Model.rpk q) (op_pk o)
-      then let (s', r) := step s o in Determ.Model.Ok [s'] r
-      else Determ.Model.NoHandler
-  | None => Determ.Model.NoHandler
-  end.
-
-Definition batched_apply (t : list (N * op)) (s : state) (p : list (list Determ.Model.call)) :=
-  Determ.Model.apply_batched state state res (fun _ w => w) (spec_handler t)
-    (fun _ s0 => (s0, RNil)) (fun _ => RNil) RNil RNil (fun _ _ => false) false false false s p.
+From ZV Require Export Lin.DetermAdapter.
 
 (* history / pending table after the replies of a group have been delivered, entry by entry *)
 Fixpoint grp (ents : list entry) (outs : list (N * res)) (clock : N) (hist : list hop) (pend : list nat)
@@ -61,7 +20,7 @@ Fixpoint grp (ents : list entry) (outs : list (N * res)) (clock : N) (hist : lis
   | [] => (clock, hist, pend)
   | e :: t =>
       let trig := existsb (Nat.eqb (e_id e)) pend in
-      let hist' := match Determ.Model.reply_of res (N.of_nat (e_id e)) outs with
+      let hist' := match breply (N.of_nat (e_id e)) outs with
                    | Some r => if trig then set_ret (e_id e) (clock, r) hist else hist
                    | None => hist
                    end in
@@ -82,7 +41,7 @@ Section Batched.
   | t_apply_group : forall g r n p s1 o1 e1,
       let rs := g_rep g r in
       let ents := map c_ent (firstn n (skipn (r_applied rs) (g_log g))) in
-      Determ.Model.flatten p = map req_of ents ->
+      bflatten p ents ->
       batched_apply (tbl_of ents) (r_st rs) p = Some (s1, o1, e1) ->
       pstepB g (group_result g r ents o1 s1).
 
